@@ -107,6 +107,9 @@ func (c *vdCase) harnessBug(format string, args ...any) {
 // raised by /repo into a model violation (a panic inside the documented
 // contract means the tree broke an internal invariant).
 func (c *vdCase) real(f func()) {
+	// Progress marks for the self-deadlock watchdog (watchdog_test.go).
+	vdWatchProgress.Add(1)
+	defer vdWatchProgress.Add(1)
 	defer func() {
 		if r := recover(); r != nil {
 			switch r.(type) {
@@ -148,6 +151,10 @@ func vdStatusName(s virtual.Status) string {
 		return rInval
 	case virtual.StatusErrNXIO:
 		return rNXIO
+	case virtual.StatusErrAccess:
+		return rAccess
+	case virtual.StatusErrWrongType:
+		return rWrongType
 	}
 	return fmt.Sprintf("STATUS(%d)", int(s))
 }
@@ -227,6 +234,14 @@ func (c *vdCase) checkResult(fn string, want []string, got string, virtualAPI bo
 
 func (c *vdCase) dname(d *mNode) string {
 	s := fmt.Sprintf("d%d", d.reg)
+	if o := d.attrOwner; o != nil {
+		// The named attribute directory of a file or of another directory.
+		if o.dir {
+			s += fmt.Sprintf("[attrs of d%d]", o.reg)
+		} else {
+			s += fmt.Sprintf("[attrs of leaf#%d]", o.leafIdx)
+		}
+	}
 	if d.deleted {
 		s += "(removed)"
 	} else if d.uninit {
@@ -416,6 +431,7 @@ func (c *vdCase) compareAll() {
 		}
 		c.compareDir(d, inodes)
 	}
+	c.compareNamedAttributes()
 }
 
 func (c *vdCase) checkLeafIdentity(where string, n *mNode, got virtual.Leaf) {
